@@ -129,6 +129,15 @@ def rename_keys(sh, mapping):
     return ('l', tuple(rename_keys(c, mapping) for c in sh[1]))
 
 
+def rename_keys_below(sh, mapping, depth=0, min_depth=1):
+    """rename mapping keys only at nesting depth >= min_depth (top-level keys keep colliding)"""
+    if sh[0] == 's':
+        return sh
+    if sh[0] == 'm':
+        return ('m', tuple(((mapping.get(k, k) if depth >= min_depth else k), rename_keys_below(c, mapping, depth + 1, min_depth)) for k, c in sh[1]))
+    return ('l', tuple(rename_keys_below(c, mapping, depth + 1, min_depth) for c in sh[1]))
+
+
 def to_jsonable(sh):
     if sh[0] == 's':
         return ['s', sh[1]]
